@@ -72,7 +72,7 @@ pub fn run_plan(plan: &Plan, property: &str) -> Outcome {
 }
 
 fn needs_net_bytes(property: &str) -> bool {
-    matches!(property, "C05" | "C08" | "C11" | "C12" | "C13")
+    matches!(property, "C05" | "C08" | "C11" | "C12" | "C13" | "C14")
 }
 
 // ---------------------------------------------------------------------------------------
@@ -273,6 +273,7 @@ struct Agg {
     probes: BTreeMap<String, u64>,
     probe_runs: BTreeMap<String, u64>,
     frame_types: BTreeSet<String>,
+    varint_widths: [u64; 4],
     families: BTreeMap<String, u64>,
     violations: Vec<(u64, Violation)>,
     samples: Vec<serde_json::Value>,
@@ -437,6 +438,9 @@ pub fn check(a: &CheckArgs, meta: &CheckMeta) -> i32 {
                     for f in &o.stats.frame_types {
                         g.frame_types.insert(f.to_string());
                     }
+                    for k in 0..4 {
+                        g.varint_widths[k] += o.stats.varint_widths[k];
+                    }
                     if g.samples.len() < 4 && (o.nontrivial || g.runs > 50) {
                         let mut sm = summarize(&plan, &o);
                         if g.samples.is_empty() {
@@ -548,6 +552,7 @@ pub fn check(a: &CheckArgs, meta: &CheckMeta) -> i32 {
             "reach_probes": g.probes,
             "reach_probe_runs": g.probe_runs,
             "frame_types_seen": g.frame_types,
+            "varint_widths_seen_1_2_4_8": g.varint_widths,
             "families": g.families,
             "regression_plans_replayed": regress_run,
             "components": meta.components,
@@ -617,12 +622,16 @@ pub fn meta_for(property: &str) -> CheckMeta {
         "C02" => "plan = f(seed) from three families (finite faults incl. blackholes / permanent blackhole / all-blocking configurations); non-trivial = faults fired and (finite: work completed after faults; blackhole: a connection existed when the blackhole started; block: a *_BLOCKED frame was sent); distinct = event-order hash",
         "C03" => "plan = f(seed): small windows / stream limits, resets, stop_sending, loss; non-trivial = the sender was actually limited (a *_BLOCKED frame was sent or a RESET_STREAM was sent); distinct = event-order hash",
         "C04" => "plan = f(seed): the byzantine rule catalogue (33 rules) is enumerated by seed modulo its length (fault_enumeration) x random attacker role, history position and surrounding workload/loss (exploration); non-trivial = the victim processed the offending packet; distinct = event-order hash; the advertised-credit bound is evaluated in every run",
+        "C05" => "REDUCED CLAIM (pure all-inputs clause is outside this technique): plan = f(seed) rotating over the byzantine (C04), forged-traffic (C06), credit (C03) and transfer (C01) families; every cleartext payload sent or processed and every datagram emitted is decoded by the independent RFC 9000 parser and by the real decoders and compared; non-trivial = a mutated/injected datagram or a rewritten cleartext reached a real decoder; distinct = event-order hash",
         "C06" => "plan = f(seed): family c06.forge injects only additive faults (bit-flipped / truncated / extended / spliced copies IN ADDITION to the genuine datagram, replays incl. from a third address, duplicates, unattributable and spoofed garbage) so every connection must survive and complete; family c06.mixed adds destructive faults (oracle 5 off); non-trivial = a non-genuine datagram was delivered to an endpoint and a stream completed; distinct = event-order hash",
         "C08" => "plan = f(seed): loss incl. ACK-only blackouts, reordering, duplication, delay; non-trivial = a fault fired and an ACK with gaps was sent or a packet was declared lost; distinct = event-order hash",
+        "C11" => "plan = f(seed): certificate blobs up to 16 KB (server first flight far above 3x the client's Initial), handshake loss/duplication/delay, Retry on/off, up to 3 clients, and up to 40 unattributable datagrams (garbage, short header with unknown id, unknown version, Version Negotiation, version 0; sizes 1..1500) from a third address; non-trivial = certificate >= 3000 bytes and the handshake progressed, or an unattributable datagram was answered; distinct = event-order hash",
+        "C14" => "REDUCED CLAIM (the pure decode table over all blocks is input enumeration): the rule catalogue (every numeric parameter at/around its bound, duplicates, removals, unknown and GREASE ids, server-only parameters in a client block, wrong/missing connection-id parameters, malformed encodings, truncations, reordering; ~120 rules per role) is enumerated completely by seed (fault_enumeration), alone and combined with an unknown parameter plus reordering, under random workloads and Retry on/off; expected verdict from an RFC 9000 7.3/7.4/18.2 table in /verif evaluated on the block as received; then the C03 credit monitor and a datagram-size monitor check that the declared values are the ones applied; non-trivial = the rewritten block reached the peer; distinct = event-order hash",
         "C12" => "plan = f(seed): send/finish/reset/stop_sending/close in all orders, hard application close, loss up to 30 %; non-trivial = RESET_STREAM/STOP_SENDING/CONNECTION_CLOSE was sent and a fault fired or a packet was lost; distinct = event-order hash",
         _ => "plan = f(seed); non-trivial = fault fired and progress; distinct = event-order hash",
     };
-    CheckMeta { level: "exploration", rule, components, assumptions }
+    let level = if matches!(property, "C04" | "C14") { "fault_enumeration" } else { "exploration" };
+    CheckMeta { level, rule, components, assumptions }
 }
 
 pub fn main(args: &[String]) -> i32 {
@@ -744,6 +753,13 @@ pub fn main(args: &[String]) -> i32 {
                     all.sort();
                     let skip = if std::env::var("VERIF_DEBUG_ALL").is_ok() { 0 } else { all.len().saturating_sub(120) };
                     for (s, l) in all.iter().skip(skip) { println!("{s} {l}"); }
+                    if std::env::var("VERIF_DEBUG_NET").is_ok() {
+                        let mut all: Vec<(u64, String)> = vec![];
+                        for r in &out.net.log { all.push((r.t_send_ns, format!("SEND {:?} #{} {:?}->{:?} len{} drop {:?} deliveries {:?}", r.dir, r.ordinal, r.src, r.dst, r.len, r.drop_reason, r.deliveries.iter().map(|d| (d.t_us, d.len)).collect::<Vec<_>>()))); }
+                        for (t, dst, src, len, label) in &out.net.delivered { all.push((*t, format!("DELIVER {:?}->{:?} len{} {:?}", src, dst, len, label))); }
+                        all.sort();
+                        for (t, l) in all { println!("N {t} {l}"); }
+                    }
                     for r in out.net.log.iter().rev().take(12).rev() { println!("NET {:?} #{} t{}us len{} first{:#x} deliveries {:?} drop {:?}", r.dir, r.ordinal, r.t_send_ns/1000, r.len, r.first_byte, r.deliveries.iter().map(|d| (d.t_us, d.len)).collect::<Vec<_>>(), r.drop_reason); }
                 }
                 for (seq, ep, t, e) in out.obs.ep_evs.iter().take(20) {
